@@ -12,6 +12,7 @@ class Facts:
         self.rng = {}     # atom -> (lo, hi) refinements
         self.other = []   # (poly, value) constraints not reducible to the above
         self.log = []     # ordered list of (poly, value) decisions (for merges / reports)
+        self.cond = []    # conditional facts: (guard 0/1 poly, poly >= 0) - active once guard is known 1
 
     def copy(self):
         f = Facts()
@@ -20,6 +21,7 @@ class Facts:
         f.rng = dict(self.rng)
         f.other = list(self.other)
         f.log = list(self.log)
+        f.cond = list(self.cond)
         return f
 
     # ------------------------------------------------------------ ranges
@@ -43,7 +45,7 @@ class Facts:
     # ------------------------------------------------------------ assume
     def assume(self, p, val=1):
         """record that 0/1 poly p has value val. Returns False on contradiction."""
-        self.log.append((p, val))
+        self.log.append(("assume", p, val))
         return self._assume(p, val)
 
     def _assume(self, p, val):
@@ -100,6 +102,20 @@ class Facts:
             if v:
                 if not (self._add_lin(q) and self._add_lin(-q)):
                     return False
+        # conditional facts whose guard became true
+        if self.cond:
+            keep = []
+            fire = []
+            for g, q in self.cond:
+                gv = self.simplify(g).const_value()
+                if gv == 1:
+                    fire.append(q)
+                elif gv is None:
+                    keep.append((g, q))
+            self.cond = keep
+            for q in fire:
+                if not self._add_lin(q):
+                    return False
         # re-simplify pending constraints
         pend, self.other = self.other, []
         for (p, val) in pend:
@@ -135,6 +151,38 @@ class Facts:
                 if lo0 is not None and hi0 is not None and lo0 > hi0:
                     return False
         return True
+
+    def add_conditional(self, guard, q):
+        self.log.append(("cond", guard, q))
+        return self._add_conditional(guard, q)
+
+    def _add_conditional(self, guard, q):
+        gv = self.simplify(guard).const_value()
+        if gv == 1:
+            return self._add_lin(q)
+        if gv is None:
+            self.cond.append((guard, q))
+        return True
+
+    def add_fact_ge0(self, q):
+        self.log.append(("lin", q, None))
+        return self._add_lin(q)
+
+    def decisions(self, start=0):
+        """[(poly, value)] of the branch decisions in the log from index start"""
+        return [(e[1], e[2]) for e in self.log[start:] if e[0] == "assume"]
+
+    @staticmethod
+    def replay(entries):
+        f = Facts()
+        for e in entries:
+            if e[0] == "assume":
+                f.assume(e[1], e[2])
+            elif e[0] == "lin":
+                f.add_fact_ge0(e[1])
+            else:
+                f.add_conditional(e[1], e[2])
+        return f
 
     # ------------------------------------------------------------ entailment
     def entails_ge0(self, p, max_facts=3, max_coeff=3):
@@ -191,10 +239,12 @@ class State:
         self.facts = Facts()
         self.trace = []    # list of trace items
         self.dead = False
+        self.lineage = ()  # states are merged at joins only within one lineage
 
     def fork(self):
         s = State()
         s.mem = dict(self.mem)
         s.facts = self.facts.copy()
         s.trace = list(self.trace)
+        s.lineage = self.lineage
         return s
